@@ -26,6 +26,48 @@ def volume_of(field):
     return float(np.broadcast_to(dV, (dV.shape[0], reg.mesh.ncells)).sum())
 
 
+def rim_area_vector(reg, f):
+    """Integrated current area vector of the loaded faces from the deformed positions of the nodes on their rims only
+    (Stokes: int n da = 1/2 loop-integral x cross dx; in 2D the rotated chord; axisymmetric axial part pi (r_b^2 - r_a^2)),
+    oriented out of the owning cell. Independent of the region's shape functions, normals and quadrature.
+    Returns (vector, kind) or None."""
+    cf = np.asarray(reg.mesh.cells_faces)
+    X = np.asarray(reg.mesh.points, float)
+    dimX = X.shape[1]
+    u = np.asarray(f[0].values, float)[:, :dimX]
+    x = X + u
+    cells = reg.mesh.cells
+    nv = 4 if dimX == 2 else 8
+    cen = X[cells[:, :nv]].mean(1)
+    axi = type(f[0]).__name__ == "FieldAxisymmetric"
+    if dimX == 2:
+        a, b = cf[:, 0], cf[:, 1]
+        rot = lambda v: np.stack([v[:, 1], -v[:, 0]], 1)
+        sgn = np.sign((rot(X[b] - X[a]) * (0.5 * (X[a] + X[b]) - cen)).sum(1))
+        if axi:
+            return np.array([float((sgn * np.pi * (x[b, 1] ** 2 - x[a, 1] ** 2)).sum())]), "axial"
+        return (sgn[:, None] * rot(x[b] - x[a])).sum(0), "vector"
+    npf = cf.shape[1]
+
+    def loop(P):  # P: (faces, nodes, 3)
+        if npf == 4:
+            return 0.5 * np.cross(P[:, 2] - P[:, 0], P[:, 3] - P[:, 1])
+        g, w = np.polynomial.legendre.leggauss(4)
+        tot = np.zeros((len(P), 3))
+        for e in range(4):
+            Q = np.stack([P[:, e], P[:, 4 + e], P[:, (e + 1) % 4]], 1)  # corner, mid-edge, next corner
+            for t, wt in zip(g, w):
+                N = np.array([t * (t - 1) / 2, 1 - t * t, t * (t + 1) / 2])
+                dN = np.array([t - 0.5, -2 * t, t + 0.5])
+                tot += wt * np.cross(np.einsum("a,fai->fi", N, Q), np.einsum("a,fai->fi", dN, Q))
+        return tot / 2
+    if npf not in (4, 8, 9):
+        return None
+    Aref = loop(X[cf])
+    sgn = np.sign((Aref * (X[cf[:, :4]].mean(1) - cen)).sum(1))
+    return (sgn[:, None] * loop(x[cf])).sum(0), "vector"
+
+
 def attach_hooks(run):
     import felupe as fem
     M = fem.mechanics
@@ -50,8 +92,25 @@ def attach_hooks(run):
         objective = not type(self.umat).__name__.startswith("LinearElastic") or type(self.umat).__name__ == "LinearElasticLargeStrain"
         nn = X.shape[0]
         if type(f.region.element).__name__.endswith("MINI"):
-            # bubble unknowns are hierarchical: their "forces" are not nodal forces; nodal forces of the vertices balance
-            run.skip("items.balance", "MINI element (bubble unknowns carry no nodal force)")
+            # bubble unknowns are hierarchical (amplitudes, no positions): the nodal forces of the vertices sum to zero, and in the
+            # moment balance the lever of a bubble's generalised force is its amplitude: sum_v x_v x f_v + sum_b u_b x f_b = 0
+            dm = X.shape[1]
+            rr = r.reshape(-1, dm)
+            bub = np.zeros(nn, bool)
+            bub[f.region.mesh.cells[:, -1]] = True
+            sc = max(maxabs(rr), 1e-300)
+            if kind == "FieldAxisymmetric":
+                run.compare("items.balance", "item=%s[MINI] clause=axial-force-sum" % label, abs(rr[~bub, 0].sum()) / (sc * nn), 1e-12,
+                            "%s on a MINI region: axial vertex forces do not sum to zero" % label, unit="balance:force:MINI", config=(label, "mini-force"))
+                return
+            run.compare("items.balance", "item=%s[MINI] clause=force-sum" % label, maxabs(rr[~bub].sum(0)) / (sc * nn), 1e-12,
+                        "%s on a MINI region: vertex forces do not sum to zero" % label, unit="balance:force:MINI", config=(label, "mini-force"))
+            if objective:
+                lev = np.where(bub[:, None], u[:, :dm], X + u[:, :dm])
+                mom = np.cross(lev, rr).sum(0) if dm == 3 else np.array([(lev[:, 0] * rr[:, 1] - lev[:, 1] * rr[:, 0]).sum()])
+                run.compare("items.balance", "item=%s[MINI] clause=moment-sum" % label, maxabs(mom) / (sc * nn * max(maxabs(lev), 1e-300)), 1e-11,
+                            "%s on a MINI region: vertex forces and bubble forces (lever = amplitude) have a resultant moment" % label,
+                            unit="balance:moment:MINI", config=(label, "mini-moment"))
             return
         MI.check_force_balance(run, r, X, u[:, : X.shape[1]], label, axisymmetric=kind == "FieldAxisymmetric", moment=objective)
 
@@ -206,6 +265,20 @@ def attach_hooks(run):
                         maxabs(got - exp_user) / max(abs(p_user) * float(np.abs(w).sum()), 1e-300), 1e-11,
                         "%s: nodal forces do not sum to minus the latest requested pressure times the integrated current area vector" % lab,
                         unit="requested:SolidBodyPressure", config=("requested", lab, closed))
+        if np.ndim(p) == 0:
+            # the same resultant from the deformed rim nodes of the loaded faces alone (no shape functions, normals, radius of the region)
+            try:
+                own = rim_area_vector(reg, f)
+            except Exception:
+                own = None
+            if own is not None:
+                vec = own[0]
+                exp_own = -float(p) * (vec if own[1] == "axial" else vec[:d])
+                got_own = got if (own[1] == "axial" or kind != "FieldAxisymmetric") else got
+                if own[1] == "axial" or kind != "FieldAxisymmetric":
+                    run.compare("items.resultant", "item=%s clause=resultant-from-face-rims" % lab, maxabs(got_own - exp_own) / scale, 1e-11,
+                                "%s: nodal forces do not sum to -p times the current area vector spanned by the rims of the loaded faces" % lab,
+                                unit="rim:" + lab + (":closed" if closed else ":open"), config=("rim", lab, closed, reg.mesh.cells_faces.shape[1]))
         if closed and kind != "FieldAxisymmetric":
             run.compare("items.resultant", "item=%s clause=closed-surface-zero" % lab, maxabs(got) / scale, 1e-11,
                         "%s: pressure on a closed surface has a resultant" % lab, unit="resultant:" + lab + ":closed-zero")
@@ -254,9 +327,12 @@ def attach_hooks(run):
             run.compare("items.mass", "item=%s clause=psd" % lab, max(0.0, -ev.min()) / maxabs(Mx), 1e-12,
                         "mass matrix has a negative eigenvalue", unit="mass:psd", config=(lab, "psd"))
         V = volume_of(f[0].as_container())
+        vertex = np.ones(f.region.mesh.npoints, bool)
+        if type(f.region.element).__name__.endswith("MINI"):
+            vertex[f.region.mesh.cells[:, -1]] = False  # the rigid translation has zero bubble amplitudes (hierarchical unknowns)
         for i in range(d):
             e = np.zeros(Mx.shape[0])
-            e[i::d] = 1.0
+            e[i: f.region.mesh.npoints * d: d] = vertex.astype(float)
             tot = float(e @ Mx @ e)
             run.compare("items.mass", "item=%s clause=total-mass" % lab, abs(tot - density * V) / (density * V), 1e-11,
                         "e_i^T M e_i differs from density * volume", unit="mass:total", config=(lab, "total"),
@@ -404,8 +480,8 @@ def case_loads(rep):
 
 def cases(tier, seed):
     out = []
-    fam3 = ["hexahedron", "tetra", "hexahedron20", "tetra10", "hexahedron27"]
-    fam2 = ["quad", "triangle", "quad8", "quad9", "triangle6"]
+    fam3 = ["hexahedron", "tetra", "hexahedron20", "tetra10", "hexahedron27", "tetraMINI"]
+    fam2 = ["quad", "triangle", "quad8", "quad9", "triangle6", "triangleMINI"]
     mats = C01.MATS + ["SolidBodyNearlyIncompressible"]
     k = 0
     reps = 1 if tier == "quick" else 4
@@ -436,13 +512,15 @@ SPEC = {
         "resultant:PointLoad", "resultant:SolidBodyPressure[Field]:open", "resultant:SolidBodyPressure[Field]:closed",
         "resultant:SolidBodyPressure[Field]:closed-zero", "resultant:SolidBodyPressure[FieldPlaneStrain]:open",
         "resultant:SolidBodyPressure[FieldAxisymmetric]:open", "mass:symmetric", "mass:psd", "mass:total",
-        "balance:MultiPointConstraint", "balance:MultiPointContact"],
+        "balance:MultiPointConstraint", "balance:MultiPointContact", "balance:force:MINI", "balance:moment:MINI",
+        "rim:SolidBodyPressure[Field]:open", "rim:SolidBodyPressure[FieldPlaneStrain]:open", "rim:SolidBodyPressure[FieldAxisymmetric]:open", "rim:SolidBodyPressure[Field]:closed"],
     "rule": ("C01's item/field/mesh matrix with objective materials at smooth random states (|grad u| <= 0.25, det F > 0.05): post-hooks "
              "on item._vector/_mass evaluate force and moment sums, load resultants (body force, gravity, point load incl. 2 pi R "
              "scaling, follower pressure on open and closed surfaces in 3D / plane strain / axisymmetric), mass matrix symmetry, "
              "positive semi-definiteness and total mass, self-equilibrium of constraint forces; a configuration is distinct by "
              "(item, field kind, clause)"),
-    "assumptions": ["current area vectors use J F^-T N dA with the boundary region's normals and dA (judged by C13)",
+    "assumptions": ["current area vectors: J F^-T N dA with the boundary region's normals and dA (judged by C13), and independently the vector spanned by the "
+                    "deformed rims of the loaded faces (Stokes)",
                     "moment balance is asserted for objective materials only"],
     "jobs": {"quick": 8, "thorough": 16},
 }
